@@ -285,7 +285,15 @@ pub(crate) fn apply_rules_on_link(
                         BTreeSet::new()
                     }
                 }
-                ArtifactRule::Disallow(_) => {
+                ArtifactRule::Disallow(pattern) => {
+                    // a DISALLOW rule that cannot be interpreted must not be
+                    // skipped silently
+                    if let Err(e) = glob::Pattern::new(pattern.value()) {
+                        return Err(Error::ArtifactRuleError(format!(
+                            "artifact verification failed for {:?} in DISALLOW, because the pattern of rule {:?} in {} cannot be interpreted: {}",
+                            verification_data.src_type, rule, item_name, e,
+                        )));
+                    }
                     if !filtered.is_empty() {
                         return Err(Error::ArtifactRuleError(format!(
                             r#"artifact verification failed for {:?} in DISALLOW, because {:?} is disallowed by rule {:?} in {}"#,
